@@ -442,8 +442,10 @@ class PooledClient(Entity):
                 delay,
             )
 
-            # Wait for retry delay
-            yield delay
+            # Wait for retry delay. The pool's release events (idle-timeout
+            # check) are stamped relative to now: hand them to the engine now,
+            # not after the wait, when their timestamp may already have passed.
+            yield delay, release_events
 
             # Create retry event
             retry_event = Event(
@@ -462,10 +464,7 @@ class PooledClient(Entity):
                 },
             )
 
-            all_events = [retry_event]
-            if release_events:
-                all_events.extend(release_events)
-            return all_events
+            return [retry_event]
 
         # No more retries - fail the request
         self._in_flight.pop(flight_key)
